@@ -1,7 +1,7 @@
 ------------------------------- MODULE TraceC16 -------------------------------
 (* Trace specification for C16: validity of every sampled object, and the     *)
 (* acceptance region for the distribution tallies (fixed seeds, no flakiness). *)
-EXTENDS Clifford, StabSem, TraceBase, FiniteSets
+EXTENDS Clifford, StabSem, Sampler, TraceBase
 
 Done == ~Has("exc")
 MapOK == (Rec.op = "randmap" /\ Done) => ValidMap(DecM(Rec.m)) /\ MapN(DecM(Rec.m)) = Rec.n
@@ -29,5 +29,11 @@ EntangleOK == (Rec.op = "dist" /\ Done /\ Has("outputs") /\ Rec.name = "random_c
 FairOK == (Rec.op = "fair" /\ Done) => (Rec.c0 - Rec.c1) * (Rec.c0 - Rec.c1) <= 64 * (Rec.c0 + Rec.c1) /\ Rec.c0 + Rec.c1 >= 1000
 \* gates without maps are resampled at every call: two calls under one seed differ for some seed of the block
 ResampleOK == (Rec.op = "resample" /\ Done) => Rec.differ >= 1 /\ Rec.compile_refused = TRUE
+\* L2 conformance (model drift, never a verdict): with the raw bits that a seed produces, the transcribed sampler
+\* of Sampler.tla yields the table the library returned.  While this holds, MC_Sampler's counting theorems
+\* (every symplectic table from exactly 2 / 4 accepted raw draws) make the library's sampler *exactly* uniform.
+Drift_RandomPair == (Rec.op = "align" /\ Done /\ Rec.what = "pair") => PairOf(<<Rec.raw[1], Rec.raw[2]>>) = <<Rec.out[1], Rec.out[2]>>
+Drift_RandomClifford == (Rec.op = "align" /\ Done /\ Rec.what = "clifford2") =>
+    Table2(<<Rec.raw2[1], Rec.raw2[2]>>, <<Rec.raw1[1], Rec.raw1[2]>>) = Rec.out
 NoCrash16 == ~Has("exc")
 =============================================================================
